@@ -194,6 +194,27 @@ def r_relpath(a: str, b: str) -> bool:
     return R(ok)
 
 
+BASES = ['base/dir', 'b', '']
+
+
+def b_base_path(s: str) -> bool:
+    """a path built relative to another Path object obeys the same normalisation, confinement
+    and separator laws (the root may be a Path)
+    pre: len(s) == N and no_ctl(s) and _plain(s)
+    post: _
+    """
+    base = Path(BASES[param('base', 0)], ROOT, directory=True)
+    escapes, comps, isdir = _walk((base.suffix + '/' if base.suffix else '') + s)
+    try:
+        p = Path(s, base)
+    except ValueError:
+        return R(escapes)
+    if escapes:
+        return R(False)
+    return R(p.root == ROOT and p.suffix == '/'.join(comps) and
+             p.directory == (isdir or not comps))
+
+
 class _V:
     """a base directory realised as a build-file variable"""
     def __init__(self, name):
@@ -249,7 +270,8 @@ def a_abspath(s: str) -> bool:
     return R(p.root == Root.absolute and p.suffix == '/' + '/'.join(comps))
 
 
-NAMES = ['a', 'b', 'c']
+# 'a.' sorts between 'a' and 'a/b' as a string but after it as a component list
+NAMES = ['a', 'a.', 'b']
 
 
 def _tok(ixs, isdir=False):
